@@ -185,8 +185,8 @@ def _put_back_line_directives(csource, line_directives):
     def replace(m):
         s = m.group()
         if not s.startswith('#line@'):
-            raise AssertionError("unexpected #line directive "
-                                 "(should have been processed and removed")
+            raise CDefError("unexpected #line directive "
+                            "(should have been processed and removed")
         return line_directives[int(s[6:])]
     return _r_line_directive.sub(replace, csource)
 
@@ -341,6 +341,11 @@ class Parser:
             ast = _get_parser().parse(fullcsource)
         except pycparser.c_parser.ParseError as e:
             self.convert_pycparser_error(e, csource)
+        except (AssertionError, AttributeError) as e:
+            # pycparser trips over some malformed inputs (e.g. a stray '}')
+            # instead of reporting a ParseError
+            raise CDefError("cannot parse the C source (%s in pycparser: %s)"
+                            % (e.__class__.__name__, e))
         finally:
             if lock is not None:
                 lock.release()
@@ -475,7 +480,11 @@ class Parser:
         if (int_str.startswith("0") and int_str != '0'
                 and not int_str.startswith("0x")):
             int_str = "0o" + int_str[1:]
-        pyvalue = int(int_str, 0)
+        try:
+            pyvalue = int(int_str, 0)
+        except ValueError:
+            raise CDefError("invalid integer constant in '#define %s'"
+                            % (name,))
         if neg:
             pyvalue = -pyvalue
         self._add_constants(name, pyvalue)
@@ -566,8 +575,12 @@ class Parser:
 
     def parse_type_and_quals(self, cdecl):
         ast, macros = self._parse('void __dummy(\n%s\n);' % cdecl)[:2]
-        assert not macros
-        exprnode = ast.ext[-1].type.args.params[0]
+        if macros:
+            raise CDefError("'#define' is not allowed in a type string")
+        args = ast.ext[-1].type.args
+        if args is None:
+            raise CDefError("expected a single C type, got %r" % (cdecl,))
+        exprnode = args.params[0]
         if isinstance(exprnode, pycparser.c_ast.ID):
             raise CDefError("unknown identifier '%s'" % (exprnode.name,))
         return self._get_type_and_quals(exprnode.type)
@@ -581,7 +594,8 @@ class Parser:
                 raise FFIError(
                     "multiple declarations of %s (for interactive usage, "
                     "try cdef(xx, override=True))" % (name,))
-        assert '__dotdotdot__' not in name.split()
+        if '__dotdotdot__' in name.split():
+            raise CDefError("bad usage of \"...\"")
         self._declarations[name] = (obj, quals)
         if included:
             self._included_declarations.add(obj)
@@ -677,8 +691,8 @@ class Parser:
                 if ident == 'void':
                     return model.void_type, quals
                 if ident == '__dotdotdot__':
-                    raise FFIError(':%d: bad usage of "..."' %
-                            typenode.coord.line)
+                    raise FFIError(':%s: bad usage of "..."' %
+                            getattr(typenode.coord, 'line', '?'))
                 tp0, quals0 = resolve_common_type(self, ident)
                 return tp0, (quals | quals0)
             #
@@ -940,10 +954,14 @@ class Parser:
                 return self._c_div(left, right)
             elif exprnode.op == '%':
                 return left - self._c_div(left, right) * right
-            elif exprnode.op == '<<':
-                return left << right
-            elif exprnode.op == '>>':
-                return left >> right
+            elif exprnode.op in ('<<', '>>'):
+                if right < 0:
+                    raise FFIError(":%d: negative shift count"
+                                   % exprnode.coord.line)
+                if exprnode.op == '<<':
+                    return left << right
+                else:
+                    return left >> right
             elif exprnode.op == '&':
                 return left & right
             elif exprnode.op == '|':
@@ -955,6 +973,8 @@ class Parser:
                        "simple numeric constant" % exprnode.coord.line)
 
     def _c_div(self, a, b):
+        if b == 0:
+            raise FFIError("division by zero in a constant expression")
         result = a // b
         if ((a < 0) ^ (b < 0)) and (a % b) != 0:
             result += 1
